@@ -31,6 +31,7 @@ def leaf (s : String) : Option Leaf :=
   else match nats (s.drop 1).toString with
     | [l, r] => if s.startsWith "i" then some (.image l r) else if s.startsWith "d" then some (.divider l r) else none
     | [l, r, w] => if s.startsWith "w" then some (.imageW l r w) else none
+    | [l, r, a, b] => if s.startsWith "q" then some (.dividerP l r a b) else none
     | _ => none
 
 def col (s : String) : Option Col :=
